@@ -6,6 +6,7 @@ import (
 	"os"
 	"path/filepath"
 	"sort"
+	"strings"
 	"time"
 )
 
@@ -250,7 +251,7 @@ func Finish(rc *RunCtx, res *Result, level string, verifDir string) int {
 			kind = s
 		}
 		rf := ReplayFile{Property: rc.Property, Kind: kind, Clause: v.Clause, Msg: v.Msg, Path: v.Path, Tags: v.Tags}
-		p := filepath.Join(verifDir, "replays", fmt.Sprintf("%s-%s.json", rc.Property, v.Clause))
+		p := filepath.Join(verifDir, "replays", fmt.Sprintf("%s-%s.json", rc.Property, strings.ReplaceAll(v.Clause, "/", "_")))
 		if err := WriteJSON(p, rf); err != nil {
 			fmt.Printf("HARNESS-ERROR cannot write replay: %v\n", err)
 			return 2
